@@ -7,4 +7,7 @@ REVIEWED = {
         "longer than its key, so the map is acyclic; a map lookup is deliberately not accepted as destructuring",
     "R1d|fixtures::cli::<impl fixtures::FixtureDatabase>::print_tree_node":
         "same parent->children map as has_visible_fixtures (built from Path::parent(), acyclic by path length)",
+    "R3d-ii|transparent|canonical_path_cache":
+        "memo of Path::canonicalize keyed by the path itself: its value is a function of the key and the file system, never of "
+        "index state, so cached computations that read it cannot go stale through it",
 }
